@@ -46,6 +46,30 @@ fn vstate_of(p: ProtocolVersion) -> VState {
 
 type Snapshots = Arc<RwLock<HashMap<ClockId, ObservableSourceState>>>;
 
+/// Seconds between the NTP era-0 epoch (1900) and the unix epoch (1970).
+const NTP_UNIX_OFFSET: i128 = 2_208_988_800;
+
+/// The 64-bit NTP timestamp a packet stamped by the kernel at unix time (seconds, nanos) stands for:
+/// era-unwrapped 32.32 value of that instant, folded into 64 bits (so it wraps at the era boundary).
+fn ntp_of_unix(ts: (i64, u32)) -> u64 {
+    let unwrapped: i128 = ((ts.0 as i128 + NTP_UNIX_OFFSET) << 32) + (((ts.1 as i128) << 32) / 1_000_000_000);
+    unwrapped as u64
+}
+
+/// The node's clock as the kernel reports it on packets: era-unwrapped, as (unix seconds, nanoseconds).
+fn kernel_clock(c: simntp::SimClock, epoch_u: i128, stepped: Arc<Mutex<i128>>) -> Box<dyn Fn() -> (i64, u32)> {
+    Box::new(move || {
+        simkit::set_now_ns(exec::elapsed_ns());
+        let ns = simkit::now_ns();
+        let raw = c.raw_now();
+        let est: i128 = epoch_u + *stepped.lock().unwrap() + (((ns as u128) << 32) / 1_000_000_000u128) as i128;
+        let unwrapped = est + (raw.wrapping_sub(est as u64) as i64) as i128;
+        let secs = (unwrapped >> 32) - NTP_UNIX_OFFSET;
+        let nanos = ((unwrapped & 0xffff_ffff) * 1_000_000_000) >> 32;
+        (secs as i64, nanos as u32)
+    })
+}
+
 /// The client clock as the task sees it. `SimClock` reads simkit's notion of "now", which the
 /// multiplexer only refreshes when it polls one of its own children; the real task is scheduled by
 /// tokio itself, so the simulated time is refreshed from the paused tokio clock on every read.
@@ -104,7 +128,7 @@ impl GSrc {
         ev!("gsrc{} task spawned id={} mode={:?} limits=({lo},{hi}) scripted={scripted}", self.idx, self.id, self.mode);
     }
 
-    fn on_send(&mut self, node: &Node, snaps: &Snapshots, bytes: &[u8], now: u64, latest: bool) -> bool {
+    fn on_send(&mut self, node: &Node, snaps: &Snapshots, bytes: &[u8], now: u64, latest: bool, kernel_ts: Option<(i64, u32)>) -> bool {
         let i = self.idx;
         let lim = self.cfg.poll_interval_limits;
         let (min, max) = (lim.min.as_log(), lim.max.as_log());
@@ -181,7 +205,16 @@ impl GSrc {
             }
         }
         self.last_send = Some((now, h.poll));
-        let t1 = node.clk.raw();
+        // T1: the kernel's send timestamp when the socket provides one, else the clock read at the send
+        let t1 = match kernel_ts {
+            Some(ts) => {
+                if ts.0 >= 2_085_978_496 {
+                    probe("glue-kernel-timestamp-in-era-1");
+                }
+                ntp_of_unix(ts)
+            }
+            None => node.clk.raw(),
+        };
         let seq = self.model.next_seq;
         self.model.next_seq += 1;
         self.model.on_poll(Req {
@@ -392,8 +425,12 @@ pub async fn run(focus: &'static str, clean: bool) {
     let notify = Arc::new(tokio::sync::Notify::new());
     let consumed = Arc::new(tokio::sync::Notify::new());
     shim::hub_reset(notify.clone(), consumed.clone());
-    let node = Node::new(0, super_epoch(), 0.0);
-    let nodes = [node];
+    let node = Node::new(0, crate::world::swarm_epoch(), 0.0);
+    let mut nodes = [node];
+    let stepped: Arc<Mutex<i128>> = Arc::new(Mutex::new(0));
+    // what the simulated kernel stamps on packets (the daemon's timestamp-mode): index 0 = none
+    let kernel_mode = [shim::KernelTimestamps::None, shim::KernelTimestamps::Recv, shim::KernelTimestamps::All][weighted("cfg.kernel-ts", &[2, 3, 3])];
+    shim::hub_set_kernel_timestamps(kernel_mode, kernel_clock(nodes[0].clk.c.clone(), nodes[0].clk.epoch_u, stepped.clone()));
     let n_srv = 1 + weighted("cfg.servers", &[3, 4, 2]);
     let nsrc = 1 + weighted("cfg.srcs", &[4, 3, 2]);
     let mut srvs: Vec<Srv> = Vec::new();
@@ -474,7 +511,7 @@ pub async fn run(focus: &'static str, clean: bool) {
         g.spawn(&nodes[0], &tx, &snaps);
         srcs.push(g);
     }
-    ev!("cfg(glue) servers={n_srv} sources={nsrc} clean={clean} replay={replay_p} jumps={jumps_p}");
+    ev!("cfg(glue) servers={n_srv} sources={nsrc} clean={clean} replay={replay_p} jumps={jumps_p} kernel-ts={kernel_mode:?}");
 
     let max_ops = 40 + choose("cfg.ops", 300);
     let mut ops = 0u64;
@@ -498,7 +535,7 @@ pub async fn run(focus: &'static str, clean: bool) {
                     return;
                 }
                 if let Some(i) = srcs.iter().position(|s| s.peer == o.peer) {
-                    if srcs[i].on_send(&nodes[0], &snaps, &o.bytes, now, $latest) {
+                    if srcs[i].on_send(&nodes[0], &snaps, &o.bytes, now, $latest, o.kernel_ts) {
                         let j = srcs[i].srv;
                         let seq = srcs[i].model.next_seq - 1;
                         net.send(
@@ -551,8 +588,8 @@ pub async fn run(focus: &'static str, clean: bool) {
             let (_, fixed) = jump_at.remove(k);
             fault("client-clock-jump");
             ev!("env client clock jumps by {fixed}");
-            // Node is behind a shared slice: jump through the SimClock handle
-            nodes[0].clk.c.meddle_step(fixed);
+            nodes[0].clk.jump(fixed);
+            *stepped.lock().unwrap() += fixed as i128;
             progressed = true;
         }
         // ---- one due datagram ---------------------------------------------------
@@ -562,7 +599,7 @@ pub async fn run(focus: &'static str, clean: bool) {
                 srvs[d.to as usize].on_request(&d, &mut net, now);
             } else if d.to >= 1000 && ((d.to - 1000) as usize) < srcs.len() {
                 let i = (d.to - 1000) as usize;
-                let t4 = nodes[0].clk.raw();
+                let clock_t4 = nodes[0].clk.raw();
                 // the datagram reaches the socket the task currently has open (a fresh one per poll);
                 // answers arriving after the task closed it vanish, as on a real host
                 let sock = if srcs[i].ended { None } else { shim::hub_socket_for(srcs[i].peer) };
@@ -594,6 +631,16 @@ pub async fn run(focus: &'static str, clean: bool) {
                     handle_outbound!(o, false);
                 }
                 let quiet = later.is_empty();
+                // T4: the kernel's receive timestamp when the socket provides one, else the clock at delivery
+                let t4 = match (taken, kernel_mode, shim::hub_last_consumed_ts()) {
+                    (true, shim::KernelTimestamps::Recv | shim::KernelTimestamps::All, Some(ts)) => {
+                        if ts.0 >= 2_085_978_496 {
+                            probe("glue-kernel-timestamp-in-era-1");
+                        }
+                        ntp_of_unix(ts)
+                    }
+                    _ => clock_t4,
+                };
                 srcs[i].after_delivery(&snaps, &d, taken, now, t4, quiet);
                 for o in later {
                     handle_outbound!(o, true);
@@ -658,15 +705,4 @@ pub async fn run(focus: &'static str, clean: bool) {
     drop(srcs);
     drop(srvs);
     shim::hub_clear();
-}
-
-fn super_epoch() -> i128 {
-    match weighted("cfg.epoch", &[5, 3, 2]) {
-        0 => 0xE000_0000i128 << 32,
-        1 => {
-            fault("era-wrap");
-            (1i128 << 64) - ([20i128, 3000, 200_000][choose("cfg.epoch.before", 3) as usize] << 32)
-        }
-        _ => (1i128 << 64) + ((choose("cfg.epoch.after", 5000) as i128) << 32),
-    }
 }
